@@ -5,7 +5,8 @@ NoBadC05: monotone view/certificates, view entered only with a certificate for v
 import bftcommon as b
 
 PROP = "C05"
-RULE = ("every event of every seeded run (valid, stale, future-view, wrong leader, wrong genesis/epoch, bad signature, sub-quorum and "
+RULE = ("T2: behaviours of ReplicaIO.tla (one replica, permissive environment, TLC random walks of 14 steps) replayed on a real StateMachine whose "
+        "peers are all played by the harness, each step validated; T1: every event of every seeded run (valid, stale, future-view, wrong leader, wrong genesis/epoch, bad signature, sub-quorum and "
         "forged certificates, non-member, Byzantine-crafted) is one TLC state: spec prediction == observation; model: ViewJustified, Monotone, "
         "SelfJustifying, HeldCertsBacked on MC_Chonky")
 ASSUME = ["compared: accept/reject (not the error variant), abstract post-state, bag of emitted messages; timing and metrics ignored",
@@ -14,7 +15,7 @@ ASSUME = ["compared: accept/reject (not the error variant), abstract post-state,
 
 def run(tier, seed):
     return b.run_property(PROP, tier, seed, ["MC_Chonky_W4c1"], ["MC_Chonky_W4c1", "MC_Chonky_W4a1", ("MC_Chonky_W4c1nv", 1200)],
-                          "TraceChonky_C05.cfg", {"C05", "conf"}, {"panic"}, RULE, ASSUME)
+                          "TraceChonky_C05.cfg", {"C05", "conf"}, {"panic"}, RULE, ASSUME, with_io=True)
 
 
 def replay(path, seed):
